@@ -36,14 +36,26 @@ static void setup(Runner &r, const Tier &t) {
 // ---- encodings: UTF-16 and UTF-32 input (the corpora and the program families feed UTF-8): every unit sequence of length 1..4 over alphabets with paired, unpaired and
 // reversed surrogates / out-of-range values; the char-infos must be the reference decoding (one U+FFFD per ill-formed unit) with code-unit offsets as bases
 struct ECase { int font, enc; uint32_t code; int len; }; static std::vector<ECase> g_enc; static std::vector<std::string> g_efonts;
+static const uint32_t A8[13] = { 0x41, 0x80, 0xBF, 0xC3, 0xE2, 0xF0, 0xF4, 0xF8, 0xF9, 0xFC, 0xFF, 0x90, 0x8F };
 static const uint32_t A16[7] = { 0x41, 0x62, 0xD83D, 0xDE00, 0xD800, 0xDFFF, 0xFFFF }, A32[6] = { 0x41, 0x62, 0x1F600, 0x10FFFF, 0x110000, 0xFFFFFFFFu };
 static void setup_enc(Runner &r, const Tier &) {
     g_enc.clear(); g_efonts = { gen_dir() + "/s_full.ttf", "Padauk.ttf" };
-    for (int f = 0; f < int(g_efonts.size()); ++f) for (int enc = 0; enc < 2; ++enc) { int na = enc == 0 ? 7 : 6; for (int L = 1; L <= 4; ++L) { uint32_t n = 1; for (int k = 0; k < L; ++k) n *= na; for (uint32_t c = 0; c < n; ++c) g_enc.push_back({ f, enc, c, L }); } }
+    for (int f = 0; f < int(g_efonts.size()); ++f) for (int enc = 0; enc < 3; ++enc) { int na = enc == 0 ? 7 : enc == 1 ? 6 : 13; if (enc == 2 && f) continue; for (int L = 1; L <= 4; ++L) { uint32_t n = 1; for (int k = 0; k < L; ++k) n *= na; for (uint32_t c = 0; c < n; ++c) g_enc.push_back({ f, enc, c, L }); } }
     r.ncases = g_enc.size(); r.case_alarm_s = 60; r.shard_init = [](int) { g_fc = new FaceCache; };
     r.describe = [](uint64_t i) { const ECase &c = g_enc[i]; JObj o; o.kv("font", g_efonts[c.font]).kv("encoding", c.enc == 0 ? "utf16" : "utf32").kv("length", c.len).kv("sequence_code", (unsigned long long)c.code).kv("dirs", "0,1"); return o; };
     r.body = [](uint64_t i, ShardCtl &ctl) { const ECase &c = g_enc[i]; gr_face *f = g_fc->get(g_efonts[c.font], gr_face_preloadAll); if (!f) return;
-        std::vector<uint32_t> u; { uint32_t x = c.code; int na = c.enc == 0 ? 7 : 6; for (int k = 0; k < c.len; ++k) { u.push_back(c.enc == 0 ? A16[x % na] : A32[x % na]); x /= na; } }
+        std::vector<uint32_t> u; { uint32_t x = c.code; int na = c.enc == 0 ? 7 : c.enc == 1 ? 6 : 13; for (int k = 0; k < c.len; ++k) { u.push_back(c.enc == 0 ? A16[x % na] : c.enc == 1 ? A32[x % na] : A8[x % na]); x /= na; } }
+        if (c.enc == 2) {   // UTF-8 with ill-formed bytes: how many bytes one ill-formed sequence swallows is not specified, so the oracle is weaker:
+            // every char-info either reports U+FFFD or exactly the scalar that strict decoding yields AT ITS BASE OFFSET; bases increase and stay inside the text
+            std::vector<uint8_t> b8; for (uint32_t v : u) b8.push_back(uint8_t(v)); size_t n8 = b8.size(); b8.push_back(0); b8.push_back(0); b8.push_back(0); b8.push_back(0);
+            for (int dir = 0; dir < 2; ++dir) { gr_segment *s = gr_make_seg(nullptr, f, 0, nullptr, gr_utf8, b8.data(), n8, dir); ctl.counters[0] = ctl.counters[0] + 1; if (!s) continue; const char *why = nullptr; char detail[160] = "";
+                unsigned nc = gr_seg_n_cinfo(s); size_t prev = 0;
+                for (unsigned k = 0; k < nc && !why; ++k) { const gr_char_info *ci = gr_seg_cinfo(s, k); size_t base = gr_cinfo_base(ci); uint32_t uc = gr_cinfo_unicode_char(ci);
+                    if (base >= n8 || (k && base <= prev)) { why = "char-info base outside the text or not increasing"; snprintf(detail, sizeof detail, "cinfo %u base %zu", k, base); break; } prev = base;
+                    if (uc != 0xFFFD) { ref::Decoded d = ref::dec8(&b8[base], n8 - base, base); if (!d.ok || d.usv != uc) { why = "char-info reports a scalar that strict UTF-8 decoding at its base offset does not yield"; snprintf(detail, sizeof detail, "cinfo %u base %zu U+%04X", k, base, uc); } } }
+                if (why) { JObj o; o.kv("prop", "C05").kv("kind", "structural_invariant").kv("what", why).kv("detail", detail).kv("font", g_efonts[c.font]).kv("encoding", "utf8").kv("units_hex", hex(b8.data(), n8)).kv("dir", dir); report_fail(i, o); }
+                gr_seg_destroy(s); }
+            ctl.cls(uint64_t(2) * 1000003 + c.code * 7 + c.len); return; }
         std::vector<uint16_t> b16; std::vector<uint32_t> b32; std::vector<ref::Decoded> dec;
         if (c.enc == 0) { for (uint32_t v : u) b16.push_back(uint16_t(v)); size_t p = 0; while (p < b16.size()) { ref::Decoded d = ref::dec16(&b16[p], b16.size() - p, p); dec.push_back(d); p += d.units; } b16.push_back(0); b16.push_back(0); }
         else { b32 = u; size_t p = 0; while (p < b32.size()) { ref::Decoded d = ref::dec32(&b32[p], b32.size() - p, p); dec.push_back(d); p += d.units; } b32.push_back(0); b32.push_back(0); }
